@@ -71,8 +71,9 @@ package dnsutils
 //@   ghost nRead int = 0
 //@   ghost flen int = 0
 //@   oncall ReadFull: nRead = nRead + 1
-//@   modifies *
-//@   ensures err == nil ==> m != nil && fresh(m) && wfMsg(m) && nRead == 2 && n == 2 + flen
+//@   modifies pkgheaps(dnsmsg), bytes()
+//@   ensures err == nil ==> m != nil && fresh(m) && wfMsg(m)
+//@   ensures [C13:consumed-exactly-one-frame] err == nil ==> nRead == 2 && n == 2 + flen
 //@   ensures err != nil ==> m == nil
 //@   callsite ReadFull: [C13:prefix-then-exactly-the-body] (nRead == 0 ? len(arg1) == 2 : len(arg1) == int(BE16(hdrBuf, 0))) && fresh(arg1)
 //@   callsite UnpackMsg: [C13:decodes-the-whole-frame] nRead == 2 && len(arg0) == int(BE16(hdrBuf, 0))
@@ -84,7 +85,7 @@ package dnsutils
 //@   requires c != nil && bufSize <= 1048576
 //@   ghost gn int = 0
 //@   aftercall Read: gn = ret0
-//@   modifies *
+//@   modifies pkgheaps(dnsmsg), bytes()
 //@   ensures err == nil ==> m != nil && fresh(m) && wfMsg(m)
 //@   ensures err != nil ==> m == nil
 //@   callsite UnpackMsg: [C01:decodes-what-was-read] len(arg0) == gn
